@@ -29,6 +29,7 @@ type Scenario struct {
 	Types       []string `json:"go_types,omitempty"`
 	UserFolders int      `json:"user_folders,omitempty"` // model.FolderOpts variant on the iterator
 	Arena       bool     `json:"strings_are_views_into_one_reused_buffer,omitempty"`
+	Options     []int    `json:"json_options_per_history_document,omitempty"`
 }
 
 type Engine struct{}
@@ -100,14 +101,26 @@ func encoders(c *simkit.Choices, x *simkit.Ctx) *simkit.Violation {
 	}
 	// JSON encoders get a drawn option setting (the same for the new instance)
 	jopts := c.N(8)
+	setOpts := func(raw structform.Visitor, o int) {
+		if jv, ok := raw.(*sfjson.Visitor); ok {
+			jv.SetEscapeHTML(o&1 == 0)
+			jv.SetExplicitRadixPoint(o&2 != 0)
+			jv.SetIgnoreInvalidFloat(o&4 != 0)
+		}
+	}
 	mkEnc := func(w *simkit.Writer) structform.Visitor {
 		raw := cd.NewVisitor(w)
-		if jv, ok := raw.(*sfjson.Visitor); ok {
-			jv.SetEscapeHTML(jopts&1 == 0)
-			jv.SetExplicitRadixPoint(jopts&2 != 0)
-			jv.SetIgnoreInvalidFloat(jopts&4 != 0)
-		}
+		setOpts(raw, jopts)
 		return raw
+	}
+	// a quarter of the JSON histories re-configure the encoder between
+	// documents; the probe runs under jopts again, like the new instance
+	var optsAt []int
+	if f == model.JSON && c.N(4) == 0 {
+		for range hist {
+			optsAt = append(optsAt, c.N(8))
+		}
+		sc.Options = optsAt
 	}
 	w := simkit.NewWriter()
 	w.Clock = &x.Clock
@@ -118,6 +131,9 @@ func encoders(c *simkit.Choices, x *simkit.Ctx) *simkit.Violation {
 		raw := mkEnc(w)
 		enc := structform.EnsureExtVisitor(raw)
 		for i, ops := range hist {
+			if optsAt != nil {
+				setOpts(raw, optsAt[i])
+			}
 			if err := encode(enc, ops); err != nil {
 				// the encoder refused a document of the history (e.g. NaN in
 				// JSON): the instance did not "completely process" it
@@ -134,6 +150,9 @@ func encoders(c *simkit.Choices, x *simkit.Ctx) *simkit.Violation {
 			}
 		}
 		w.Reset()
+		if optsAt != nil {
+			setOpts(raw, jopts)
+		}
 		reusedErr = encode(enc, probe)
 		reusedOut = simkit.Exact(w.Buf)
 	})
